@@ -25,7 +25,7 @@ RULE = (
 )
 ASSUMPTIONS = [
     "asyncio FIFO ready queue (never reordered)",
-    "an actor closes only its own handle, after its own operations",
+    "handles are closed by their user or by a third party (agents), also while blocked on",
     "pre-call observers on the public send_nowait/receive_nowait sample statistics() at "
     "the instant of the critical section (also when entered from a blocking call)",
 ]
@@ -39,6 +39,7 @@ def all_cases(tier: str, seed: int):  # noqa: ANN201
     rcfgs = ["stock", "eager"] * 3 + ["uvloop"]  # a share of the random cases on uvloop
     yield from memstream.payload_cases()
     yield from memstream.sweep_c12(cfgs)
+    yield from memstream.sweep_c12_third_party_close(cfgs)
     rng = random.Random(seed * 6151 + 12)
     for _ in range(60000 if tier == "thorough" else 6000):
         yield memstream.gen_c12(rng, rcfgs)
